@@ -119,6 +119,10 @@ func (g *bgen) yield(name string, idx, depth int) bElem {
 	if g.r.Chance(50) {
 		e.hasCont = true
 		e.content = []bElem{{kind: "text", text: fmt.Sprintf("c%d", g.r.Intn(90))}, {kind: "cv"}}
+		if g.r.Chance(20) {
+			// an empty content section still is the caller's content: nothing, not the enclosing content
+			e.content = []bElem{}
+		}
 		if g.r.Chance(20) && depth > 0 && idx+1 < len(bNames) {
 			e.content = append(e.content, g.yield(bNames[len(bNames)-1], len(bNames)-1, 0))
 		}
@@ -145,6 +149,9 @@ func (g *bgen) def(name string, depth int) *bDef {
 	if g.r.Chance(50) {
 		d.hasDefCont = true
 		d.defContent = []bElem{{kind: "text", text: "dc-" + d.id}, {kind: "cv"}}
+		if g.r.Chance(20) {
+			d.defContent = []bElem{}
+		}
 	}
 	return d
 }
